@@ -215,6 +215,15 @@ def run_case(case):
         C["rule_before_parameter_routes"] += 1
     except Exception as e:
         C["rule_before_parameters_refused"] += 1
+    # the species the text mentions are declared only AFTER the rule that uses them (through the initial-condition dictionary,
+    # which the constructor reads last): such a model is either refused or means the written formula
+    try:
+        M6 = Model(species=["Y"], parameters=[(q_, 1.0) for q_ in par + ["_" + q for q in par if ("_" + q) in text.replace(" ", "")]],
+                   rules=[("assignment", {"equation": "Y = " + text})], initial_condition_dict={s_: 1.0 for s_ in sp})
+        routes["species declared after use"] = (M6, ModelCSimInterface(M6))
+        C["species_declared_after_use_routes"] += 1
+    except Exception as e:
+        C["species_declared_after_use_refused"] += 1
     # the same text compiled again, in the same process, for a model that declares the same species in another order
     # (same names, same parameters): the formula's meaning does not depend on declaration order
     sp_r = list(reversed(sp)) if len(sp) > 1 else list(sp)
@@ -329,6 +338,18 @@ def run_case(case):
             st5 = x5.copy()
             itf5.py_apply_repeated_rules(st5, t, True)
             got["assignment rule created before its parameters were declared"] = (st5[idx5["Y"]], e1)
+        if "species declared after use" in routes:
+            M6, itf6 = routes["species declared after use"]
+            idx6 = M6.get_species2index()
+            x6 = np.zeros(len(idx6))
+            for s_ in sp:
+                if s_ in idx6:
+                    x6[idx6[s_]] = x[s_]
+            M6.set_params({q: p[q] for q in par})
+            M6.set_params({"_" + q: p[q] for q in par if ("_" + q) in M6.get_params2index()})
+            st6 = x6.copy()
+            itf6.py_apply_repeated_rules(st6, t, True)
+            got["assignment rule whose species were declared after it (initial_condition_dict)"] = (st6[idx6["Y"]], e1)
         for route, (g, e) in got.items():
             C["accepted_evaluations"] += 1
             if not (math.isfinite(g) and close(g, e)):
